@@ -12,5 +12,6 @@ func controlsC15() []Control {
 		{Name: "pause also pushes the deadline", Expect: "R1", Mutate: replaceIn("(*tableEngine).PauseTable", "te.table.State.Status = TableStateStatus_TablePausing", "te.table.State.Status = TableStateStatus_TablePausing\n\tte.table.State.CurrentActionEndAt += 60", 0)},
 		{Name: "turn predicate reads DidAction instead of Acted", Expect: "R3", Mutate: replaceIn("(*tableEngine).updateCurrentActionEndAt", "!p.Acted", "p.DidAction == \"\"", 0)},
 		{Name: "deadline published on every event of a playing hand", Expect: "R3", Mutate: replaceIn("(*tableEngine).updateCurrentActionEndAt", "event == pokerface.GameEvent_RoundStarted && ", "", 0)},
+		{Name: "engine hook no longer drives the deadline updater", Expect: "R4", Mutate: replaceIn("(*tableEngine).updateGameState", "\t\tte.updateCurrentActionEndAt(event, gs)\n", "", 0)},
 	}
 }
